@@ -25,7 +25,7 @@ func TestMain(m *testing.M) {
 		{Test: "TestAnchor", Quick: 1, Thorough: 1},
 		{Test: "TestWholeLife", Quick: 12, Thorough: 16},
 		{Test: "TestHistoryIndependence", Quick: 4, Thorough: 8},
-		{Test: "TestTallKey", Quick: 1, Thorough: 6},
+		{Test: "TestTallKey", Quick: 2, Thorough: 6},
 	})
 }
 
@@ -330,7 +330,7 @@ func jumps(ops []histOp) []uint32 {
 // byte boundary of the index (255|256, 511|512, ...) are compared after forward jumps.
 func TestTallKey(t *testing.T) {
 	r := ev.New(t, prop, "TestTallKey")
-	r.Rule("a key of height 10 (quick: one hash function chosen by VERIF_SEED; thorough: h=10 all hashes and h=12 all hashes) from a rapid seed: public key compared with the reference, then signatures at 0, 1, 2^k-1, 2^k for every k < h, the last two indices and a few drawn ones, reached by SetIndex, compared byte-for-byte with xmssref.Sign; non-trivial = each compared signature at an index >= 256, distinct by (hash,h,seed,index)")
+	r.Rule("a key of height 10 and one of height 12 (quick: hash functions chosen by VERIF_SEED; thorough: h=10 all hashes and h=12 all hashes) from a rapid seed: public key compared with the reference, then signatures at 0, 1, 2^k-1, 2^k for every k < h, the last two indices and a few drawn ones, reached by SetIndex, compared byte-for-byte with xmssref.Sign; non-trivial = each compared signature at an index >= 256, distinct by (hash,h,seed,index)")
 	type th struct {
 		hf xmss.HashFunction
 		h  int
@@ -341,7 +341,9 @@ func TestTallKey(t *testing.T) {
 			list = append(list, th{hf, 10}, th{hf, 12})
 		}
 	} else {
-		list = []th{{pu.Hashes[int(r.Seed()%3)], 10}}
+		// one key of height 10 and one of height 12 (the treehash budget (h-2)/2 and the index byte count change
+		// with the height), different hash functions
+		list = []th{{pu.Hashes[int(r.Seed()%3)], 10}, {pu.Hashes[int((r.Seed()+1)%3)], 12}}
 	}
 	for li, e := range list {
 		if !r.Mine(li) {
